@@ -240,10 +240,92 @@ pub fn run(args: &Args) {
             sum.sample(J::s(format!("MKD$({:e}) = {:?}", x, by)));
         }
     }
+    // ---- 4. PEEK / POKE through whole programs: both bytes of every INTEGER, and POKE of boundary
+    // and random bytes into boundary and random INTEGERs
+    {
+        use crate::runner::{End, Outcome, RunOpts, run_program};
+        let src = "DEFINT A-Z\nFOR V& = -32768 TO 32767\nA = V&\nPRINT PEEK(VARPTR(A)); PEEK(VARPTR(A) + 1)\nNEXT\n";
+        evaluations += 1;
+        match run_program(src, &RunOpts { budget: 20_000_000, ..Default::default() }) {
+            Outcome::Ran(r) if r.end == End::Ok => {
+                let out = String::from_utf8_lossy(&r.stdout).to_string();
+                let lines: Vec<&str> = out.lines().collect();
+                if lines.len() != 65536 {
+                    sum.violation(ImplViolation { key: "peek-program".into(), input: src.replace('\n', " | "), expected: "65536 lines".into(), observed: format!("{} lines", lines.len()) });
+                }
+                for (k, l) in lines.iter().enumerate() {
+                    let v = k as i32 - 32768;
+                    let word = (v as i64 & 0xffff) as u32;
+                    let (lo, hi) = (word & 255, word >> 8);
+                    let got: Vec<i64> = l.split_whitespace().filter_map(|t| t.parse().ok()).collect();
+                    evaluations += 1;
+                    if got != vec![lo as i64, hi as i64] {
+                        sum.violation(ImplViolation { key: "peek-bytes".into(), input: format!("A% = {} : PRINT PEEK(VARPTR(A%)); PEEK(VARPTR(A%) + 1)", v), expected: format!("{} {}", lo, hi), observed: l.trim().to_string() });
+                    }
+                    // the model on a sample (every 97th value and the boundaries)
+                    if got.len() == 2 && (k % 97 == 0 || v.abs() <= 2 || v >= 32766 || v <= -32767 || (v & 255) == 0 || (v & 255) == 255) {
+                        w.push(Case {
+                            agree: format!("match peek_byte {} 0, peek_byte {} 1 with Some a, Some b => (a =? {}) && (b =? {}) | _, _ => false end", z(v as i128), z(v as i128), got[0], got[1]),
+                            desc: format!("PEEK of both bytes of {} = {:?}", v, got),
+                            model_expr: format!("(peek_byte {} 0, peek_byte {} 1)", z(v as i128), z(v as i128)),
+                        });
+                    }
+                }
+                sum.count("peek_all_integers_both_bytes");
+            }
+            other => sum.violation(ImplViolation { key: "peek-program".into(), input: src.replace('\n', " | "), expected: "runs".into(), observed: format!("{:?}", other).chars().take(200).collect() }),
+        }
+        let vals: Vec<i32> = vec![0, 1, -1, 2, -2, 255, 256, 257, -255, -256, -257, 32767, -32768, -32767, 127, 128, -128, -129, 4660, -4660];
+        let bytes_: Vec<i32> = vec![0, 1, 127, 128, 254, 255];
+        let mut triples: Vec<(i32, i32, i32)> = vec![];
+        for v in vals.iter() {
+            for k in 0..2 {
+                for b in bytes_.iter() {
+                    triples.push((*v, k, *b));
+                }
+            }
+        }
+        for _ in 0..(if args.thorough() { 3000 } else { 400 }) {
+            triples.push((rng.range(-32768, 32767) as i32, rng.below(2) as i32, rng.below(256) as i32));
+        }
+        let mut src = String::from("DEFINT A-Z\n");
+        for (v, k, b) in triples.iter() {
+            src.push_str(&format!("A = {}\nPOKE VARPTR(A) + {}, {}\nPRINT A\n", v, k, b));
+        }
+        evaluations += 1;
+        match run_program(&src, &RunOpts { budget: 20_000_000, ..Default::default() }) {
+            Outcome::Ran(r) if r.end == End::Ok => {
+                let out = String::from_utf8_lossy(&r.stdout).to_string();
+                let lines: Vec<&str> = out.lines().collect();
+                if lines.len() != triples.len() {
+                    sum.violation(ImplViolation { key: "poke-program".into(), input: "POKE program".into(), expected: format!("{} lines", triples.len()), observed: format!("{} lines", lines.len()) });
+                }
+                for ((v, k, b), l) in triples.iter().zip(lines.iter()) {
+                    let word = (*v as i64 & 0xffff) as u32;
+                    let nw = if *k == 0 { (word & 0xff00) | (*b as u32) } else { (word & 0x00ff) | ((*b as u32) << 8) };
+                    let expect = if nw >= 32768 { nw as i64 - 65536 } else { nw as i64 };
+                    let got: Option<i64> = l.trim().parse().ok();
+                    evaluations += 1;
+                    if got != Some(expect) {
+                        sum.violation(ImplViolation { key: "poke-byte".into(), input: format!("A% = {} : POKE VARPTR(A%) + {}, {} : PRINT A%", v, k, b), expected: format!("{}", expect), observed: l.trim().to_string() });
+                    }
+                    if let Some(g) = got {
+                        w.push(Case {
+                            agree: format!("match poke_byte {} {}%nat {} with Some r => r =? {} | None => false end", z(*v as i128), k, b, z(g as i128)),
+                            desc: format!("POKE byte {} of {} with {} = {}", k, v, b, g),
+                            model_expr: format!("poke_byte {} {}%nat {}", z(*v as i128), k, b),
+                        });
+                    }
+                }
+                sum.count("poke_triples");
+            }
+            other => sum.violation(ImplViolation { key: "poke-program".into(), input: "POKE program".into(), expected: "runs".into(), observed: format!("{:?}", other).chars().take(200).collect() }),
+        }
+    }
     w.flush();
     sum.write(
         &args.out,
         evaluations,
-        "exhaustive over all 65536 INTEGERs (bit vector, bytes both ways, NOT); AND/OR on (boundary u one-hot u complement)^2 plus seeded random pairs; doubles: every power of two, boundary mantissas across exponents, subnormals, +-0, around 2^53/2^63/2^64, max finite, random bit patterns. Non-trivial = not 0/-1 (unary), distinct non-zero operands (pairs), finite (doubles); distinct by value.",
+        "exhaustive over all 65536 INTEGERs (bit vector, bytes both ways, NOT); AND/OR on (boundary u one-hot u complement)^2 plus seeded random pairs; doubles: every power of two, boundary mantissas across exponents, subnormals, +-0, around 2^53/2^63/2^64, max finite, random bit patterns; PEEK of both bytes of all 65536 INTEGERs through a running program (against an independent two's-complement oracle, a sample against Bits.peek_byte), POKE of boundary and random bytes into boundary and random INTEGERs (oracle and Bits.poke_byte). Non-trivial = not 0/-1 (unary), distinct non-zero operands (pairs), finite (doubles); distinct by value.",
     );
 }
